@@ -1,5 +1,6 @@
 import JominiModel.Driver.Util
 import JominiModel.Model.BinTape
+import JominiModel.Model.BinTapeVec
 /-
 ops of property C03 (and the binary half of C06):
   btape  <hex>             optimised parser        -> tape in show.rs `bin_tape` format | err:eof | err:syntax
@@ -50,7 +51,12 @@ def handle : Handler
   | ["btapeU", h] => (parseHex h).map fun d => showRes (parse false d)
   | ["btpair", h] => (parseHex h).map fun d => showRes (parse true d) ++ " | " ++ showRes (parse false d)
   | ["btexp", h, _] => (parseHex h).map fun d => showRes (parse true d)
-  | ["btreuse", _, h] => (parseHex h).map fun d => showRes (parse true d)
+  | ["btreuse", hb, h] => (parseHex hb).bind fun big => (parseHex h).map fun d =>
+      -- the vector left behind by the first parse (its tokens on success, whatever it held on failure)
+      let prev : VecS := match parse true big with
+        | .ok t => VecS.ofList t
+        | .error _ => ⟨(List.replicate 7 BTok.mixed), 3⟩
+      showRes (parseInto true prev d)
   | ["wfbin", h] => (parseHex h).map fun d =>
       match parse true d with
       | .ok t => if wfBinTape d t then "wf:true" else "wf:false"
